@@ -640,6 +640,77 @@ pub fn vint_case(case: u64, rng: &mut Rng, rep: &mut Report, deep: bool) {
 }
 
 // ---------------------------------------------------------------------------------------------
+// stream "single-segment": the index is written by `SingleSegmentIndexWriter` (no IndexWriter, no
+// worker threads, no segment updater: the segment writer is finalised directly and meta.json is
+// written by `finalize()`), sorted or not; every stored document is read back through the same
+// comparisons as in the index stream.
+pub fn single_segment_case(_case: u64, rng: &mut Rng, rep: &mut Report, deep: bool) {
+    let sch = sch();
+    let sorted = rng.chance(1, 4);
+    let bs = if rng.chance(1, 3) { *rng.pick(&[0usize, 1, 8, 64]) } else { *rng.pick(BLOCK_SIZES) };
+    let settings = IndexSettings {
+        sort_by_field: if sorted {
+            Some(IndexSortByField { field: "sk".to_string(), order: if rng.bool() { Order::Asc } else { Order::Desc } })
+        } else {
+            None
+        },
+        docstore_compression: gen_compressor(rng),
+        docstore_blocksize: bs,
+        docstore_compress_dedicated_thread: rng.bool(),
+        ..IndexSettings::default()
+    };
+    let mut writer: tantivy::indexer::SingleSegmentIndexWriter = match Index::builder()
+        .schema(sch.schema.clone())
+        .settings(settings.clone())
+        .single_segment_index_writer(tantivy::directory::RamDirectory::create(), 40_000_000)
+    {
+        Ok(w) => w,
+        Err(e) => {
+            rep.violation("api-error:single_segment_index_writer", json!({"error": e.to_string(), "settings": settings_json(&settings)}));
+            return;
+        }
+    };
+    rep.eval();
+    let mut pool = BTreeMap::new();
+    let mut alive = BTreeSet::new();
+    let mut epoch_of = BTreeMap::new();
+    let mut total_bytes = 0usize;
+    let mut next_id = 1u64;
+    for p in plan_segment(rng, bs, deep) {
+        if total_bytes > (6 << 20) {
+            break;
+        }
+        let id = next_id;
+        next_id += 1;
+        let mut d = gen_doc(rng, sch, id, p);
+        if matches!(p, Profile::Tiny) && rng.chance(3, 4) {
+            let at = rng.usize_below(d.vals.len() + 1);
+            d.vals.insert(at, (sch.slot("u_so"), MV::U64(id)));
+        }
+        observe_kinds(rep, &d);
+        total_bytes += d.est_len(sch);
+        if let Err(e) = writer.add_document(d.to_tdoc(sch)) {
+            rep.violation("api-error:single-segment:add_document", json!({"error": e.to_string(), "profile": d.profile}));
+            return;
+        }
+        alive.insert(id);
+        epoch_of.insert(id, 0usize);
+        pool.insert(id, d);
+    }
+    let index = match writer.finalize() {
+        Ok(i) => i,
+        Err(e) => {
+            rep.violation("api-error:single-segment:finalize", json!({"error": e.to_string(), "settings": settings_json(&settings)}));
+            return;
+        }
+    };
+    rep.count("single_segment_indexes", 1);
+    rep.count("single_segment_docs", alive.len() as u64);
+    let mut ix = Ix { index, settings: settings.clone(), pool, alive, known: BTreeMap::new(), epochs: vec![settings], epoch_of };
+    check_index(rep, rng, sch, &mut ix, "single-segment", &[]);
+}
+
+// ---------------------------------------------------------------------------------------------
 // stream "concurrent": several threads fetch documents of DIFFERENT blocks through ONE shared
 // `Searcher` / ONE shared `StoreReader` (cache 0/1/2/100); every returned document is compared
 // with the model. A serial read of the same segment is done first, so a mismatch here is due to
